@@ -39,17 +39,19 @@ def run(args):
     try:
         jobs = []
         for t in range(n):
-            rows, meta = gen_tree(rng)
+            long = t % 7 == 3
+            rows, meta = gen_tree(rng, long=long)
             path = os.path.join(tmp, f"case{t}.swc")
             write_swc(path, rows)
             content = np.loadtxt(path)
             ncomp = int(rng.integers(1, 6))
             minr = None if rng.random() < 0.5 else 0.5
             mbl = None
-            if rng.random() < 0.3:
+            if rng.random() < 0.3 or long:
                 try:
                     base = swcmod.swc_to_jaxley(path, max_branch_len=None)[1]
-                    mbl = float(np.round(max(base) * rng.uniform(0.25, 0.95), 3))
+                    # one third of the split cases ask for so many pieces that the reader's cap of 10 pieces per section is reached
+                    mbl = float(np.round(max(base) * (rng.uniform(0.25, 0.95) if (rng.random() < 0.65 and not long) else rng.uniform(0.03, 0.12)), 3))
                 except Exception:
                     mbl = 10.0
             try:
@@ -105,6 +107,14 @@ def run(args):
                         if not soma_not_contiguous(rows):
                             R.spec_fail(dict(kind="split-piece-not-in-a-section"), f"with max_branch_len={mbl} branch {b} is not a contiguous piece of a section {secs}", inp, b)
                         break
+                # ... and carries the SWC type of that section (so the type groups stay the partition by SWC type)
+                if not soma_not_contiguous(rows) and len(ln["spectypes"]) == len(secs):
+                    for j, b in enumerate(py["branches"][k0:]):
+                        hit = [si for si, sec in enumerate(secs) if len(b) >= 2 and any(sec[i:i + len(b)] == b for i in range(len(sec)))]
+                        if len(hit) == 1 and int(py["types"][k0 + j]) != int(ln["spectypes"][hit[0]]):
+                            R.spec_fail(dict(kind="split-piece-type"), f"with max_branch_len={mbl} branch {k0 + j} = points {b} has type {py['types'][k0 + j]} but lies in a "
+                                        f"section of SWC type {ln['spectypes'][hit[0]]}", inp, py["types"], sections=secs, section_types=ln["spectypes"])
+                            break
                 tot_spec = sum(ln["speclen"]) if ln["spec"] else None
                 if tot_spec is not None and not soma_not_contiguous(rows) and not math.isclose(sum(py["lengths"][k0:]), tot_spec, rel_tol=1e-9):
                     # zero-length sections are set to 1.0 per piece: allow that documented convention
